@@ -181,7 +181,35 @@ def check(ctx):
             # while loop
             hdr = cfg.head_of(lp)
             conj = [c for c, pol in conjuncts(lp.test, True) if pol]
+
+            def invariant_expand(e, depth=0):
+                """locals bound before the loop to option values (``max_fun_evals = self.options['max_fun_evals']``) stand for
+                those options as long as the loop stores neither; a local bound to the evaluation counter (or to any other
+                state the loop's evaluations change) is *not* expanded - it is stale after the first evaluation"""
+                import copy as _cp
+
+                stored_in_loop = {canon(t_) for t_, v_, s_, k_ in iter_stores(lp)} | {t_.id for t_, v_, s_, k_ in iter_stores(lp) if isinstance(t_, ast.Name)}
+
+                class X(ast.NodeTransformer):
+                    def visit_Name(self, n_):
+                        if isinstance(n_.ctx, ast.Load) and n_.id not in stored_in_loop and depth < 3:
+                            dd = reaching_assignments(prog, fn, n_.id, lp)
+                            if len(dd) == 1 and dd[0] is not None:
+                                c_ = canon(dd[0])
+                                reads_state = any(tok in c_ for tok in ("LOG.", "OS[", "self.function_logger", "self.optim_state"))
+                                if not reads_state and ("OPT[" in c_ or c_.replace(".", "").replace("self", "").isidentifier() or const_num(dd[0]) is not None) and c_ not in stored_in_loop:
+                                    return invariant_expand(_cp.deepcopy(dd[0]), depth + 1)
+                        return n_
+
+                return X().visit(_cp.deepcopy(e))
+
+            conj = [invariant_expand(c) for c in conj]
             verdicts = [is_budget_continue(c) for c in conj]
+            stale = [n_.id for c in conj for n_ in ast.walk(c) if isinstance(n_, ast.Name) and any("LOG.func_count" in canon(d_) for d_ in reaching_assignments(prog, fn, n_.id, lp) if d_ is not None)]
+            if True not in verdicts and stale:
+                ctx.fail(fn, lp, f"the loop's budget test reads the local '{stale[0]}', a copy of the evaluation counter taken before the loop: the evaluations made inside the loop do not advance it, so the loop runs past max_fun_evals",
+                         construct=f"stale evaluation counter {stale[0]} in loop test")
+                continue
             if True in verdicts:
                 ctx.ok(fn, lp, "while ... and func_count < max_fun_evals ...")
                 continue
